@@ -83,6 +83,142 @@ def failed_pair_leak(env):
     return None
 
 
+def node_counts(net):
+    return [(len(n.virtQubits), len(n.simQubits), len(n.registers), n.numRegs) for n in net.nodes]
+
+
+def random_epr_plan(rng, thorough):
+    """several application generations on the same 2-3 nodes; per generation: pair requests (create-and-keep), then every
+    node entangles / measures / frees some of the halves it holds (a node holding halves of two pairs made elsewhere is the
+    repeater case: both qubits simulated at two other nodes), then the applications stop in a random order"""
+    n_nodes = rng.choice([2, 3, 3])
+    gens = []
+    for g in range(rng.randrange(2, 4 if thorough else 3) + 1):
+        reqs = []
+        held = [0] * n_nodes
+        for _ in range(rng.randrange(1, 4)):
+            c = rng.randrange(n_nodes)
+            r = rng.choice([x for x in range(n_nodes) if x != c])
+            n = rng.randrange(1, 3)
+            if max(held[c], held[r]) + n > 4:
+                continue
+            held[c] += n
+            held[r] += n
+            reqs.append({"c": c, "r": r, "n": n, "s": len([q for q in reqs if {q["c"], q["r"]} == {c, r}])})
+        if not reqs:
+            reqs.append({"c": 0, "r": 1, "n": 1, "s": 0})
+            held[0] += 1
+            held[1] += 1
+        acts = []
+        for node in range(n_nodes):
+            a = []
+            live = list(range(held[node]))
+            for _ in range(rng.randrange(0, 4)):
+                if not live:
+                    break
+                kind = rng.choice(["cnot", "cnot", "cphase", "h", "meas", "free"])
+                if kind in ("cnot", "cphase") and len(live) >= 2:
+                    x, y = rng.sample(live, 2)
+                    a.append((kind, x, y))
+                elif kind == "h":
+                    a.append(("h", rng.choice(live)))
+                elif kind in ("meas", "free"):
+                    x = rng.choice(live)
+                    live.remove(x)
+                    a.append((kind, x))
+            acts.append(a)
+        order = list(range(n_nodes))
+        rng.shuffle(order)
+        gens.append({"reqs": reqs, "acts": acts, "stop_order": order})
+    return {"n_nodes": n_nodes, "gens": gens, "pb": rng.random() < 0.25, "sched": rng.randrange(10 ** 6)}
+
+
+def run_epr_plan(env, plan):
+    """returns (problems, observations). Oracle on the implementation alone: every message completes; a stop at node X empties X
+    and leaves the other nodes' held qubits alone; when all applications of a generation have stopped every node is back at
+    (held, simulated, registers, register counter) = (0, 0, 0, 0)"""
+    import random
+    import qasm_epr as EP
+    from props import c08
+    net, names = c08.make_net(env, plan["n_nodes"], plan["pb"])
+    P = []
+    obs = []
+    base = node_counts(net)
+    for g, gen in enumerate(plan["gens"]):
+        socks = {i: [] for i in range(plan["n_nodes"])}
+        for q in gen["reqs"]:
+            a, b = ("N%d" % q["r"], q["s"] + 2 * q["r"], q["s"] + 2 * q["c"]), ("N%d" % q["c"], q["s"] + 2 * q["c"], q["s"] + 2 * q["r"])
+            if a not in socks[q["c"]]:
+                socks[q["c"]].append(a)
+            if b not in socks[q["r"]]:
+                socks[q["r"]].append(b)
+        streams, stops = {}, {}
+        for node in range(plan["n_nodes"]):
+            my = [q for q in gen["reqs"] if node in (q["c"], q["r"])]
+
+            def body(conn, eprs, node=node, my=my):
+                qs = []
+                for q in my:
+                    if q["c"] == node:
+                        qs += eprs[socks[node].index(("N%d" % q["r"], q["s"] + 2 * q["r"], q["s"] + 2 * q["c"]))].create_keep(q["n"])
+                    else:
+                        qs += eprs[socks[node].index(("N%d" % q["c"], q["s"] + 2 * q["c"], q["s"] + 2 * q["r"]))].recv_keep(q["n"])
+                    conn.flush()
+                for a in gen["acts"][node]:
+                    if a[0] == "cnot":
+                        qs[a[1]].cnot(qs[a[2]])
+                    elif a[0] == "cphase":
+                        qs[a[1]].cphase(qs[a[2]])
+                    elif a[0] == "h":
+                        qs[a[1]].H()
+                    elif a[0] == "meas":
+                        qs[a[1]].measure()
+                    elif a[0] == "free":
+                        qs[a[1]].free()
+                conn.flush()
+            msgs = EP.sdk_messages(names, names[node], g, socks[node], body, max_qubits=8)
+            streams[node] = [m for m in msgs if type(m).__name__ != "StopAppMessage"]
+            stops[node] = [m for m in msgs if type(m).__name__ == "StopAppMessage"]
+        Q.script_coins(env, [(i * 5 + g + plan["sched"]) % 2 for i in range(96)], len(env.tap))
+        out = EP.run_concurrently(env, net, streams, random.Random(plan["sched"] + g))
+        for node, lst in out.items():
+            for (m, rep, esc) in lst:
+                if esc or ("err", 0) in rep:
+                    P.append({"kind": "message-failed", "what": "generation %d: %s at node %d: replies %r, escaped %r" % (g, type(m).__name__, node, rep, [str(e)[:200] for e in esc])})
+        if P:
+            break
+        for node in gen["stop_order"]:
+            before = node_counts(net)
+            o = EP.run_concurrently(env, net, {node: stops[node]}, random.Random(1))
+            rep = o[node][0][1] if o[node] else []
+            after = node_counts(net)
+            obs.append((g, node, before, after))
+            if not rep or rep[-1][0] != "done" or ("err", 0) in rep:
+                P.append({"kind": "stop-failed", "what": "generation %d: StopApp at node %d answered %r" % (g, node, rep)})
+                break
+            if after[node][0] != 0:
+                P.append({"kind": "stop-keeps-qubits", "what": "generation %d: after its stop node %d still holds %d qubits" % (g, node, after[node][0])})
+                break
+            others = [(b[0], a[0]) for k, (b, a) in enumerate(zip(before, after)) if k != node]
+            if any(b != a for b, a in others):
+                P.append({"kind": "stop-destroys-foreign-halves", "what": "generation %d: the stop of node %d changed the number of qubits other nodes hold: %r -> %r"
+                          % (g, node, [b[0] for b in before], [a[0] for a in after])})
+                break
+        if P:
+            break
+        if node_counts(net) != base:
+            P.append({"kind": "population", "what": "generation %d: every application has stopped, but the nodes' (held, simulated, registers, register counter) are %r instead of %r"
+                      % (g, node_counts(net), base)})
+            break
+    Q.script_coins(env, None, 0)
+    return P, obs
+
+
+REPEATER = {"n_nodes": 3, "pb": False, "sched": 7, "gens": [
+    {"reqs": [{"c": 0, "r": 1, "n": 1, "s": 0}, {"c": 2, "r": 1, "n": 1, "s": 0}],
+     "acts": [[], [("cnot", 0, 1), ("h", 0), ("meas", 0), ("meas", 1)], []], "stop_order": [0, 1, 2]}] * 3}
+
+
 def judge_c11(s):
     """the property, evaluated on the implementation alone (no model, no reference interpreter):
     every stop completes with exactly one completion reply and no error; whenever no application is active the
@@ -129,7 +265,9 @@ def run(ctx):
                 "registers: allocations up to and beyond capacity, frees, entangling gates, failed subroutines (T, rotations, bad addresses), stop with "
                 "qubits still mapped; oracle on the implementation alone: every StopApp answers exactly MsgDone, and whenever no application is active the "
                 "per-node counts (held, simulated, registers) equal those before the first message; Coq decides model = implementation per message "
-                "(Qasm/Cases.v); distinct = distinct (capacities, message, coins)")
+                "(Qasm/Cases.v); several nodes: generations of create-and-keep requests over 2-3 nodes, gates between the halves a node holds (repeater: both "
+                "simulated elsewhere), measurements, frees, stops in random order, counts incl. the register counter back at zero after every generation; "
+                "distinct = distinct (capacities, message, coins)")
     common.check_properties_file(ctx)
     logging.disable(logging.CRITICAL)
     env = N.setup()
@@ -149,6 +287,18 @@ def run(ctx):
         reuse = QR.replay(env, caps, script)
         reuse.scenario = name
         leak = failed_pair_leak(env)
+        epr_found = []
+        plans = [REPEATER, dict(REPEATER, pb=True)] + [random_epr_plan(rng, t) for _ in range(120 if t else 24)]
+        for plan in plans:
+            probs, obs = run_epr_plan(env, plan)
+            ctx.count("epr_plans")
+            ctx.count("epr_plans_over_real_PB", 1 if plan["pb"] else 0)
+            ctx.count("epr_generations", len(plan["gens"]))
+            ctx.count("epr_stops_observed", len(obs))
+            ctx.count("epr_repeater_gates", sum(1 for g_ in plan["gens"] for a in g_["acts"] for x in a if x[0] in ("cnot", "cphase")))
+            ctx.case(("epr-plan", str(plan)), nontrivial=True)
+            if probs:
+                epr_found.append((plan, probs))
     logging.disable(logging.NOTSET)
     gens = 0
     for s in sessions:
@@ -216,6 +366,14 @@ def run(ctx):
         else:
             ctx.broken_explained_by_known = True
     ctx.count("failed_pair_creation_scenarios")
+    ctx.obligation("oracle (several nodes): generations of pair requests, repeater gates, frees and stops in any order leave every node at (0, 0, 0, 0); "
+                   "a stop never changes what other nodes hold", not epr_found, epr_found[0][1][0]["what"] if epr_found else "")
+    for plan, probs in epr_found[:1]:
+        key = "C11:epr-" + probs[0]["kind"]
+        if ctx.report(key, probs[0]["what"], {"plan": plan, "problems": probs}, found_input=True):
+            found = True
+        else:
+            ctx.broken_explained_by_known = True
     if not seen - {"C11:appid-reuse"}:
         ctx.obligation("oracle: every stop completes and idle nodes are back at their initial counts (fresh application ids)", True)
     if bad and not found and not (seen - {"C11:appid-reuse"}):
